@@ -120,6 +120,39 @@ def drive_systematic(n, w):
     return bad, len(us), len(cells) - 1
 
 
+def one_comb(n, w, idx):
+    """None if some single offset u0 in [0,1) produces the index vector idx, else a description."""
+    s_ = np.sum(w.astype(LD))
+    c = np.cumsum(w.astype(LD) / s_)
+    cprev = np.concatenate([[LD(0)], c[:-1]])
+    idx = np.sort(np.asarray(idx))
+    k = np.arange(n, dtype=LD)
+    tol = LD(n) * (abs(LD(s_) - 1) + LD(1e-12)) + LD(1e-9)
+    lo = float(np.max(n * cprev[idx] - k) - tol)
+    hi = float(np.min(n * c[idx] - k) + tol)
+    lastpos = int(np.flatnonzero(w > 0)[-1])
+    if idx[-1] == lastpos:
+        m_ = idx != lastpos
+        hi = float(np.min((n * c[idx] - k)[m_]) + tol) if m_.any() else 1.0
+    if lo > hi or hi < 0 or lo > 1:
+        cnt = np.bincount(idx, minlength=len(w))
+        nw = n * w / float(s_)
+        j = int(np.argmax(np.abs(cnt - nw)))
+        return f"no single offset u0 produces the selected rows (feasible interval [{lo:.6g}, {hi:.6g}]); e.g. row {j}: {int(cnt[j])} copies for n*w={float(nw[j]):.6g}"
+    return None
+
+
+class _IsolatingClusterer:
+    """Two clusters; cluster 1 is a tiny neighbourhood of one pool row (a mode represented by a single particle)."""
+
+    def __init__(self, u0):
+        self.u0 = float(u0)
+        self.n_clusters_ = 2
+
+    def predict(self, u):
+        return (np.abs(np.asarray(u)[:, 0] - self.u0) < 1e-9).astype(int)
+
+
 def drive_seeded(rng, n, w):
     """systematic_resample(n, w, random_state=k): whatever offset a seeded call uses, the result must be ONE comb (all teeth
     share the offset), hence floor/ceil copies; equal seeds give equal results."""
@@ -193,7 +226,13 @@ def drive_resampler(rng, n, w, scheme, blobs):
     # any positive temperature (the first annealing step of a sharply peaked problem is ~1e-5 or smaller) must be resampled
     sm.set_current("beta", float(rng.choice([5e-324, 1e-300, 1e-12, 1e-7, 1e-5, 9.9e-5, 1e-3, 0.5, 1 - 1e-9, 1.0])))
     wn = w / w.sum()
-    rs = Resampler(sm, n_particles=n, resample=scheme, clusterer=None, clustering=False, have_blobs=blobs)
+    clu, clustering = None, False
+    if rng.random() < 0.5 and m > 1:
+        # clustering on, and one pool row (the one whose expected number of copies is closest to one) is a cluster of its own:
+        # which rows are selected must not depend on the labels
+        j_iso = int(np.argmin(np.abs(n * wn - 1.0) + (wn == 0) * 10))
+        clu, clustering = _IsolatingClusterer(j_iso / max(m, 1) * 0.999), True
+    rs = Resampler(sm, n_particles=n, resample=scheme, clusterer=clu, clustering=clustering, have_blobs=blobs)
     try:
         rs.run(wn.copy())
     except Exception as e:
@@ -208,6 +247,14 @@ def drive_resampler(rng, n, w, scheme, blobs):
         return bad
     if np.any(wn[ids] == 0):
         bad.append(("zero-weight-drawn", f"{scheme}: a zero-weight pool row was selected", None))
+    if scheme == "syst":
+        msg = one_comb(n, wn, ids)
+        if msg:
+            bad.append(("resampler-not-a-comb", f"Resampler.run(syst, clustering={clustering}): {msg}", None))
+    if clustering and cur.get("assignments") is not None:
+        exp_lab = clu.predict(cur["u"])
+        if not np.array_equal(np.asarray(cur["assignments"]), exp_lab):
+            bad.append(("resampler-assignments", "assignments are not the clusterer's labels of the selected rows", None))
     okrow = np.allclose(cur["u"][:, 0], ids / max(m, 1) * 0.999, atol=0) and np.array_equal(cur["x"], 10 * cur["u"] + 1)
     if blobs:
         okrow = okrow and np.array_equal(cur["blobs"], ids + 0.5)
